@@ -139,11 +139,23 @@ class Walker:
             m = re.match(r"(_\d+) = discriminant\((_\d+)\);", line)
             if m:
                 v = env.get(m.group(2), ("opaque",))
+                if v[0] == "call":  # `match` / `if let` directly on a call's Result: 0 = Ok, 1 = Err
+                    ok = self.fresh("ok_" + v[1])
+                    for e in events:
+                        if e.get("dst") == m.group(2):
+                            e["ok"] = ok
+                    env[m.group(2)] = ("result", ok)
+                    v = ("tried", ok)
+                elif v[0] == "result":
+                    v = ("tried", v[1])
                 env[m.group(1)] = ("discr", v[1]) if v[0] == "tried" else ("opaque",)
                 continue
             m = re.match(r"(_\d+) = (?:&mut |&|copy |move )+\(?\*?(_\d+)\)?;", line)
             if m:
                 env[m.group(1)] = env.get(m.group(2), ("opaque",))
+                continue
+            if re.match(r"_0 = (std::result::)?Result::<.*>::Err\(", line):
+                events.append(dict(name="ERR"))
                 continue
             m = re.match(r"(_\d+) = ", line)
             if m:
